@@ -133,6 +133,12 @@ def map_key(p, key, maps, q):
 
 
 SCHEMES = {
+    # names that are concatenations of other names with the separators the library itself uses ("_"): unique per kind and
+    # across kinds, yet equal to what a naive "<resource>_<task>" / "<task>_<resource>" composition would produce
+    "concatenations": lambda kind, i: {"task": ["A", "W_A", "B", "A_W"][(i - 1) % 4] + ("" if i <= 4 else str(i)),
+                                       "worker": ["W", "V_A", "V"][(i - 1) % 3] + ("" if i <= 3 else str(i)),
+                                       "cumul": "W_B_P" + str(i), "select": "A_S" + str(i), "con": "A_W_c" + str(i),
+                                       "buffer": "A_b" + str(i), "ind": "A_i" + str(i)}[kind],
     "plain": lambda kind, i: {"task": "Task", "worker": "Res", "cumul": "Pool", "select": "Sel", "con": "Rule", "buffer": "Stock", "ind": "Ind"}[kind] + str(i),
     "prefixes": lambda kind, i: {"task": "T", "worker": "T", "cumul": "P", "select": "T", "con": "T", "buffer": "T", "ind": "T"}[kind] + "1" * i,
     "suffix_like_generated": lambda kind, i: {"task": ["x", "x_start", "x_end", "x_duration"][(i - 1) % 4],
